@@ -71,6 +71,8 @@ type gen struct {
 	preferWant TypeID // an interface bound to a local provider's external result: a good requested type
 	hiddenArg map[TypeID]bool // argument types of the hidden external package (only ext providers may take them)
 	wide     bool // fan shape: every inner unit takes at most one of the first supplied types, the last unit joins all
+	crossFrom int // wide fan only: units from this index on (but the last) all take the same two fanned-out results ("cross pair")
+	crossPair []TypeID
 }
 
 func (g *gen) allow(f string) bool {
@@ -547,6 +549,9 @@ func (g *gen) drawAsync(label string) bool {
 		if len(g.units) < 2 {
 			return rapid.Bool().Draw(g.rt, label+"-base0") && rapid.Bool().Draw(g.rt, label+"-base1") && rapid.Bool().Draw(g.rt, label+"-base2")
 		}
+		if !g.last && g.crossFrom > 0 && rapid.Bool().Draw(g.rt, label+"-crossfan") {
+			return true
+		}
 		if !g.last {
 			return rapid.Bool().Draw(g.rt, label+"-fan0") || rapid.Bool().Draw(g.rt, label+"-fan1") || rapid.Bool().Draw(g.rt, label+"-fan2")
 		}
@@ -590,6 +595,13 @@ func Gen(rt *rapid.T, o Opts) *Case {
 		g.wide = true
 		nUnits = rapid.IntRange(9, 16).Draw(rt, "nwide")
 		g.c.AddFeature("wide-fan")
+		if rapid.Bool().Draw(rt, "wide-cross") {
+			// two or three units that each need the SAME two fanned-out results: with no spare
+			// pool they are appended to the pools of those two results, which then need each other
+			// (more of them than spare pools: the first ones take the pools left empty by
+			// synchronous or value units among the fan)
+			g.crossFrom = max(4, nUnits-1-rapid.IntRange(2, 5).Draw(rt, "ncross"))
+		}
 	} else if nUnits >= 3 {
 		g.roots = rapid.IntRange(0, min(5, nUnits-1)).Draw(rt, "roots")
 		if o.RootBias && rapid.IntRange(0, 5).Draw(rt, "rootjoin") == 5 {
@@ -639,7 +651,28 @@ func Gen(rt *rapid.T, o Opts) *Case {
 
 func (g *gen) genUnit(i int) {
 	// value unit?
-	if i > 0 && !g.last && !(g.rootJoin && i <= 3) && g.want("value", "isvalue", 12) {
+	crossUnit := g.wide && g.crossFrom > 0 && i >= g.crossFrom && !g.last
+	if crossUnit && g.crossPair == nil {
+		// the pair: results of two different fanned-out units, fixed for the case
+		var fanTypes []TypeID
+		seenUnit := map[int]bool{}
+		for _, t := range g.supplied {
+			if u := g.supplierUnit[t]; u >= 2 && !seenUnit[u] && t != CtxType && g.units[u].Kind != "value" {
+				seenUnit[u] = true
+				fanTypes = append(fanTypes, t)
+			}
+		}
+		if len(fanTypes) >= 2 {
+			a := rapid.IntRange(0, len(fanTypes)-2).Draw(g.rt, "cross-a")
+			b := rapid.IntRange(a+1, len(fanTypes)-1).Draw(g.rt, "cross-b")
+			g.crossPair = []TypeID{fanTypes[a], fanTypes[b]}
+			g.c.AddFeature("wide-cross-pair")
+		} else {
+			g.crossFrom = 0
+			crossUnit = false
+		}
+	}
+	if i > 0 && !g.last && !crossUnit && !(g.rootJoin && i <= 3) && g.want("value", "isvalue", 12) {
 		t := g.freshValueType(false, "valtype")
 		if g.c.T(t).Kind == KGeneric {
 			// keep values simple
@@ -663,7 +696,7 @@ func (g *gen) genUnit(i int) {
 	g.pid++
 	p := Prov{ID: g.pid, Form: "func"}
 	extForm := false
-	if g.want("ext", "extform", 12) {
+	if !crossUnit && g.want("ext", "extform", 12) { // a provider of an external package cannot take the user package's types
 		extForm = true
 		p.Form = "ext"
 		p.Pkg = g.ensureExt().Key
@@ -699,7 +732,11 @@ func (g *gen) genUnit(i int) {
 					nParams++
 				}
 			}
-			nParams = max(2, min(nParams, 10))
+			if g.crossFrom > 0 {
+				nParams = max(2, min(nParams, 14)) // every result of the cross units has a consumer
+			} else {
+				nParams = max(2, min(nParams, 10))
+			}
 		} else if i >= 2 {
 			// fanned-out units mostly hang off a base unit (three out of four)
 			nParams = 1
@@ -709,6 +746,10 @@ func (g *gen) genUnit(i int) {
 		} else if nParams > 1 {
 			nParams = 1
 		}
+	}
+	if crossUnit {
+		nParams = 0
+		p.Params = append(p.Params, g.crossPair...)
 	}
 	rootUnit := i < g.roots
 	if rootUnit && g.o.RootBias {
